@@ -154,8 +154,8 @@ def main():
         'RandomVariables.create return unique names or raise ValueError. Equality: reflexive, symmetric, consistent '
         'with !=, with hash and with copy/deepcopy for every pair of objects of the nine classes; transitive for '
         'Parameter and VariabilityLevel. Immutability: assigning any public property raises AttributeError and '
-        'replace() (returning or raising) leaves every field of the original the identical object and returns a new '
-        'object. Every obligation has a reachability twin that CrossHair must refute with a reachable, equal pair. '
+        'replace() (returning or raising) leaves every field of the original the identical object (or an equal value) '
+        'and returns an object of the class. Every obligation has a reachability twin that CrossHair must refute with a reachable, equal pair. '
         'Counterexamples are replayed concretely in a fresh interpreter with the builtin hash before they are reported.'),
         checker_cmd='crosshair check --report_all --per_condition_timeout T harness/C06_values.py:LINE'))
 
